@@ -23,6 +23,18 @@ CLAIMED = {
         "ipaddress.ip_address().packed as scope key is modelled as the normalised address string.",
         "DESIGN.md §6 C18",
     ),
+    "C20": (
+        "Lean 4 theorems (for-all-chunkings framing law by induction on the chunk list) + differential correspondence with NotifyServer/NotifyClient on in-memory streams",
+        "Proof: NostrRelay/Props/C20.lean proves that for every list of chunks whose concatenation is the concatenation of "
+        "32-byte ids the readexactly(32) loop hands on exactly those ids (client and server), and end to end, for every "
+        "interleaving of relayed units and every re-chunking, each worker looks up exactly the other workers' ids, each "
+        "once, never its own. The model loop is compared with the real handle_notify/connect coroutines on StreamReaders "
+        "fed chunk by chunk (all cut positions of 1-3 ids, random chunkings, several origins, disconnect mid-id). The "
+        "read(32) defect of the pinned tree was repaired by a fix: commit; the old loop is kept as a Lean counter-witness.",
+        "Trusted: Lean kernel + standard axioms; asyncio.StreamReader/transport semantics (one write() per unit is "
+        "contiguous on the peer stream); TCP; storage.get_event/notify_all_connected are stubs here (C05 covers fan-out).",
+        "DESIGN.md §6 C20",
+    ),
 }
 
 NOT_YET = "not reached yet in this round (model/tie not built); see DESIGN.md §10 staging — no weaker technique is substituted"
